@@ -644,6 +644,8 @@ def gen_mixed_portfolio(rng, kinds=ALL_KINDS, g=None, n_assets=(2, 6), n_nodes=(
             assets.append(gen_storage(rng, g, 's%d' % j, nds, f, price_key=key, window=window))
         elif ty == 'storage_mip':
             a = gen_storage(rng, g, 'sm%d' % j, [pick(rng, nodes)], f, price_key=None, window=False, mip=True, inflow=False)
+            if window and a.get('no_simult_in_out') and rng.random() < 0.4:
+                a['start'], a['end'], _kw = gen_window(rng, g, kinds=['inside', 'straddle_start', 'straddle_end', 'start_only', 'end_only'])      # a lifetime of its own
             a['start_level'] = 0.; a['end_level'] = 0.
             if a['size'] == 0:
                 a['size'] = 5.
